@@ -211,7 +211,7 @@ def numeric(ctx):
     # exp / log
     Q = sm.Quaternion
     vmag = [('1e%d' % k, 10.0 ** k) for k in ((-6, -3, -1, 0, 1, 3, 6) if tier == 'quick' else range(-6, 7))]
-    for (vn, vm), sp, (di, dv) in itertools.product(vmag, (-2.0, -1e-3, 0.0, 0.5, 3.0, 1e3), enumerate(alph.G_VEC3[:4])):
+    for (vn, vm), sp, (di, dv) in itertools.product(vmag, (-2.0, -1e-3, -3e-6, 0.0, 1e-9, 4e-6, 2e-5, 0.5, 3.0, 1e3), enumerate(alph.G_VEC3[:4])):
         q = np.r_[sp, vm * alph.unit(dv)]
         cid = 'C12/explog/v=%s/s=%g/dir=%d' % (vn, sp, di)
         if not ctx.want(cid):
